@@ -299,3 +299,13 @@ Definition check_apg (k : case_apg) : bool :=
   let st := apg_step (prox_of (kv_f k) (kv_gamma k)) (grad_of (kv_g k)) (kv_gamma k)
                      (fun j => nth j (kv_alpha k) 0) in
   vsclose (kv_tr k) (tracek fst (kv_n k) 0 st (kv_x k, kv_x k)).
+
+(* ---- accelerated pdhg: tau_k, sigma_k, theta_k recorded by replaying the scalar recursion ---- *)
+Record case_pdacc := { kw_nc : nat; kw_M : qmat; kw_f : fk; kw_g : fk; kw_tau : list Q; kw_sigma : list Q;
+                       kw_theta : list Q; kw_x : qvec; kw_n : nat; kw_tr : list qvec }.
+Definition check_pdacc (k : case_pdacc) : bool :=
+  let L := mop (kw_M k) in let Ladj := madj (kw_nc k) (kw_M k) in
+  let tau := fun j => nth j (kw_tau k) 0 in let sigma := fun j => nth j (kw_sigma k) 0 in
+  let theta := fun j => nth j (kw_theta k) 0 in
+  let st := fun j => pdhg_step L Ladj (prox_of (kw_f k) (tau j)) (ccprox_of (kw_g k) (sigma j)) (tau j) (sigma j) (theta j) in
+  vsclose (kw_tr k) (tracek pd_x (kw_n k) 0 st (pdhg_init (length (kw_M k)) (kw_x k) None None)).
